@@ -302,7 +302,7 @@ pub fn record(rep: &mut Report, h: &History, v: Option<Value>) {
 }
 
 pub fn run_session_level(ctx: Ctx) -> Report {
-    let n = ctx.tier.pick(16_000, 200_000);
+    let n = ctx.tier.pick(16_000, 600_000);
     run::run_sharded("C19", ctx.shards, move |shard, nshards, rep| {
         let mut rng = Rng::new(ctx.seed.wrapping_mul(97).wrapping_add(shard as u64) ^ 0xC19);
         for i in 0..n / nshards {
